@@ -549,12 +549,31 @@ def leakCount (p : PSt) : Nat :=
   let g := p.gs.g
   ((List.range g.nextId).filter fun i => !(g.node i).freed && isNodeKind (p.kinds.getD i "?")).length
 
+/-- the handles a script name stands for -/
+def Ent.handles : Ent → List Nat
+  | .stream n | .ssink n | .router n => [n]
+  | .cell h _ => [h]
+  | .csink h s => [h, s]
+  | .sloop sl _ => [sl]
+  | .cloop sl _ h => [sl, h]
+  | .listener li _ strong active => if strong && active then [li, li] else [li]   -- the script's and the context's
+  | .rooted li => [li]
+  | .other | .dropped => []
+
+/-- self-check of the recipes, evaluated after every line: the handle count of every object is exactly the number
+    of handles the script's names (and the context's keep-alive list) stand for — no recipe forgets a temporary
+    handle or drops one it does not own -/
+def balanced (p : PSt) : Bool :=
+  let held := p.env.flatMap fun (_, v) => v.handles
+  (List.range p.gs.g.nextId).all fun a => p.gs.handles.get a == held.count a
+
 def step (p : PSt) (line : String) : PSt × String :=
   let ws := (line.trimAscii.toString.splitOn " ").filter (· ≠ "")
   if ws == ["---"] then ({}, "---") else
   match compile p.env p.gs.g.nextId ws with
   | .ops l env =>
     let p := runG { p with env := env } l
+    let p := if balanced p then p else { p with err := true }
     (p, if p.err then "struct-error" else "ok")
   | .quiet l => (runG p l, "-")
   | .open_ => ({ p with depth := p.depth + 1 }, "ok")
